@@ -2026,6 +2026,11 @@ let coef_poly k0 k1 kadd kmul kopp p s t =
 let ksum k0 kadd l f =
   fold_right (fun a acc -> kadd (f a) acc) k0 l
 
+(** val doc_magnetization_half : bool **)
+
+let doc_magnetization_half =
+  false
+
 type 'k mat = state0 -> state0 -> 'k
 
 (** val m_zero : 'a1 -> 'a1 mat **)
@@ -2126,13 +2131,31 @@ let spec_coulombS k0 k1 kadd kmul idx l norb nspin u eps =
           m_scale kmul u (m_nn k0 k1 kmul (idx l a z0) (idx l a z'))))))
     (spec_level k0 k1 kadd kmul idx l norb nspin eps)
 
+(** val m_nud :
+    'a1 -> 'a1 -> ('a1 -> 'a1 -> 'a1) -> ('a2 -> int -> int -> int) -> 'a2 ->
+    int -> 'a1 mat **)
+
+let m_nud k0 k1 ksub idx l a =
+  m_sub ksub (m_n k0 k1 (idx l a up)) (m_n k0 k1 (idx l a down))
+
 (** val m_sz :
     'a1 -> 'a1 -> ('a1 -> 'a1 -> 'a1) -> ('a1 -> 'a1 -> 'a1) -> 'a1 -> ('a2
     -> int -> int -> int) -> 'a2 -> int -> 'a1 mat **)
 
 let m_sz k0 k1 kmul ksub khalf idx l a =
-  m_scale kmul khalf
-    (m_sub ksub (m_n k0 k1 (idx l a up)) (m_n k0 k1 (idx l a down)))
+  m_scale kmul khalf (m_nud k0 k1 ksub idx l a)
+
+(** val spec_magnetization_with :
+    'a1 -> 'a1 -> ('a1 -> 'a1 -> 'a1) -> ('a1 -> 'a1 -> 'a1) -> ('a1 -> 'a1
+    -> 'a1) -> 'a1 -> ('a2 -> int -> int -> int) -> bool -> 'a2 -> int -> 'a1
+    -> 'a1 mat **)
+
+let spec_magnetization_with k0 k1 kadd kmul ksub khalf idx half l norb mH =
+  m_sum k0 kadd (rng norb) (fun a ->
+    m_scale kmul mH
+      (if half
+       then m_sz k0 k1 kmul ksub khalf idx l a
+       else m_nud k0 k1 ksub idx l a))
 
 (** val spec_magnetization :
     'a1 -> 'a1 -> ('a1 -> 'a1 -> 'a1) -> ('a1 -> 'a1 -> 'a1) -> ('a1 -> 'a1
@@ -2140,8 +2163,8 @@ let m_sz k0 k1 kmul ksub khalf idx l a =
     mat **)
 
 let spec_magnetization k0 k1 kadd kmul ksub khalf idx l norb mH =
-  m_sum k0 kadd (rng norb) (fun a ->
-    m_scale kmul mH (m_sz k0 k1 kmul ksub khalf idx l a))
+  spec_magnetization_with k0 k1 kadd kmul ksub khalf idx
+    doc_magnetization_half l norb mH
 
 (** val x_quartic :
     'a1 -> 'a1 -> ('a1 -> 'a1) -> int -> int -> int -> int -> 'a1 mat **)
@@ -2316,6 +2339,31 @@ let x_Sminus_tot k0 k1 kadd kopp idx sites0 =
 
 let x_term_matrix k0 k1 kmul kopp idx t =
   m_scale kmul t.t_val (coef_mono k0 k1 kopp (term_ops idx t))
+
+(** val code_magnetization_half : bool **)
+
+let code_magnetization_half =
+  false
+
+(** val prepare_first_by_index : bool **)
+
+let prepare_first_by_index =
+  true
+
+(** val cfg_fixed : bool **)
+
+let cfg_fixed =
+  prepare_first_by_index
+
+(** val cfg_mag_half : bool **)
+
+let cfg_mag_half =
+  code_magnetization_half
+
+(** val cfg_doc_half : bool **)
+
+let cfg_doc_half =
+  doc_magnetization_half
 
 type qC = q * q
 
